@@ -27,8 +27,11 @@ approach / chain, tol 1e-6..1e-12, k*T 1e-3..20, m0 1e-3..1): largest global err
   CVODE with -cvode_steps <= 50 (restart path)               up to 1.5e10 (0.2 * m0), silently; none seen at >= 70
 => two known findings (see replays/C12/known): K1 the CVODE restart path resumes from a rejected trial solution;
 K2 with CVODE the global error is not bounded by 100*tol for -cvode_order <= 4 or for many chained integrations
-(20 incremental steps with the default order: 167*tol; the accuracy clauses are asserted up to ACC_MAX_CHAINED = 2, where
-the largest ratio seen is 47 - a factor 2 of head room).  Both trigger classes are excluded BY CONSTRUCTION from the accuracy clauses (exact solution, path independence) and
+(20 incremental steps with the default order: 167*tol) and grows like tol^(-1/(q+1)) as the tolerance is tightened (order 5,
+one integration: 7 at tol/m0 = 1e-6, 21 at 1e-10, 44 at 1e-12).  The accuracy clauses are asserted for CVODE only with the default
+order 5, no restart, at most ACC_MAX_CHAINED = 2 chained integrations and tol >= CVODE_MIN_REL_TOL = 1e-10 of the largest amount,
+where the largest ratio seen in 9 000 random runs is 27.5 (two such ways may differ by twice that: a factor 2 of head room on
+the path-independence clause).  All trigger classes are excluded BY CONSTRUCTION from the accuracy clauses (exact solution, path independence) and
 counted (`excluded_known:*`); ways in those classes are still run and checked for every clause that does not
 involve the tolerance (non-negative amounts, solute balance, KIN_DELTA, time bookkeeping).
 
@@ -51,8 +54,9 @@ RULE = ("Hypothesis-generated KINETICS/RATES problems. Closed-form families: zer
         "steps, explicit list <= 20 steps} x {INCREMENTAL_REACTIONS true,false} x {-runge_kutta 1/2/3/6 with -step_divide/-bad_step_max, "
         "-cvode with -cvode_order 1-5 / -cvode_steps 20-20000 / -bad_step_max} x {batch, ADVECTION 1 cell, TRANSPORT 1 cell with flux or "
         "constant boundaries (sub-mixes)}, each way in a fresh instance; the first two ways are always accuracy-bearing (Runge-Kutta, or "
-        "CVODE order 5 without restart and <= 2 chained integrations), the third may lie in a known-finding class (CVODE order <= 4, "
-        "-cvode_steps <= 100, > 2 chained integrations) where only the tolerance-free clauses are asserted. Library leg: phreeqc.dat RATES "
+        "CVODE order 5 without restart, <= 2 chained integrations and tol >= 1e-10 of the largest amount), the third may lie in a "
+        "known-finding class (CVODE order <= 4, -cvode_steps <= 100, > 2 chained integrations, tol < 1e-10 of the largest amount) where only "
+        "the tolerance-free clauses are asserted. Library leg: phreeqc.dat RATES "
         "Calcite, Pyrite, Organic_C, K-feldspar, Albite, Quartz in their documented set-ups, same relations without the closed form. "
         "Non-trivial = the reaction moved > 1e-3 of m0, the bound 100*tol is < 10 % of the amount moved, >= 2 accuracy-bearing ways "
         "completed and the case is not a pure exhaustion; distinct by SHA-256 of the case")
@@ -63,7 +67,7 @@ ASSUMPTIONS = ["-tol is an absolute tolerance in moles of reaction per internal 
                "the speciation solver's convergence tolerance (1e-12, set in every input) and rounding add at most 1e-11 of the largest amount",
                "rate laws that read a dissolved amount inherit the run's own solute-balance residual (asserted separately with C02's "
                "tolerance): 4x the largest residual reported by the run is added to the bound for those laws only",
-               "known findings K1 (CVODE restart) and K2 (CVODE global error for order <= 4 / many chained integrations) are excluded by "
+               "known findings K1 (CVODE restart) and K2 (CVODE global error for order <= 4 / > 2 chained integrations / tol < 1e-10 of the amounts) are excluded by "
                "construction from the accuracy clauses and re-reported from replays/C12/known",
                "library-rate set-ups stay in the smooth regime of their rate laws (no exhaustion of the electron acceptor / reactant)"]
 TECHNIQUE = "property-based testing (Hypothesis): closed-form reference model + multi-path differential (partition / incremental / integrator / host)"
@@ -80,6 +84,7 @@ ELS = ["Na", "K", "Li", "Cl", "Br", "N"]
 SOLNAME = {"N": "N(5)"}
 TOLS = [1e-6, 1e-7, 1e-8, 1e-9, 1e-10, 1e-11, 1e-12]
 ACC_MAX_CHAINED = 2          # CVODE (order 5, no restart): accuracy clauses asserted up to this many chained integrations
+CVODE_MIN_REL_TOL = 1e-10    # CVODE accuracy clauses only for tol >= this * (largest reactant amount): error/tol grows like tol^(-1/6)
 NO_RESTART_STEPS = 5000      # -cvode_steps >= this never reaches the restart path in the generated domain (probe: order 5 needs <= 1000 steps)
 
 
@@ -105,10 +110,10 @@ def rk_integ(draw):
 
 
 @st.composite
-def acc_way(draw, hosts):
-    """a way for which the accuracy clauses are asserted"""
+def acc_way(draw, hosts, cv_ok=True):
+    """a way for which the accuracy clauses are asserted (cv_ok: the tolerance is not tighter than CVODE_MIN_REL_TOL)"""
     host = draw(st.sampled_from(hosts))
-    cv = draw(st.integers(0, 4)) >= 3
+    cv = draw(st.integers(0, 4)) >= 3 and cv_ok
     w = {"host": host}
     if cv:
         w["integ"] = {"type": "cvode", "order": 5, "steps": draw(st.sampled_from([5000, 20000])),
@@ -133,10 +138,10 @@ def acc_way(draw, hosts):
 
 
 @st.composite
-def kf_way(draw, hosts, tol):
-    """a CVODE way inside a known-finding trigger class (K1 restart, K2 low order / many chained integrations);
-    sizes are kept small because low orders need 1e3..1e5 internal steps at tight tolerances"""
-    sub = draw(st.sampled_from(["order", "order", "restart", "accum"]))
+def kf_way(draw, hosts, tol, cv_ok=True):
+    """a CVODE way inside a known-finding trigger class (K1 restart, K2 low order / many chained integrations / very tight
+    relative tolerance); sizes are kept small because low orders need 1e3..1e5 internal steps at tight tolerances"""
+    sub = draw(st.sampled_from(["order", "order", "restart", "accum"] + ([] if cv_ok else ["tight", "tight"])))
     hs = [h for h in hosts if h in ("batch", "advection", "transport_flux")] or ["batch"]
     host = draw(st.sampled_from(hs))
     w = {"host": host, "incr": True}
@@ -151,6 +156,8 @@ def kf_way(draw, hosts, tol):
     elif sub == "restart":
         steps = 20 if (tol >= 1e-9 and draw(st.booleans())) else 50
         w["integ"] = {"type": "cvode", "order": draw(st.sampled_from([3, 4, 5, 5])), "steps": steps, "bad_step_max": 2000}
+    elif sub == "tight":
+        w["integ"] = {"type": "cvode", "order": 5, "steps": draw(st.sampled_from([5000, 20000])), "bad_step_max": 500}
     else:
         w["integ"] = {"type": "cvode", "order": 5, "steps": 5000, "bad_step_max": 500}
         small = False
@@ -170,13 +177,14 @@ def kf_way(draw, hosts, tol):
 
 
 @st.composite
-def ways(draw, hosts, tol):
-    ws = [draw(acc_way(hosts)), draw(acc_way(hosts))]
+def ways(draw, hosts, tol, scale):
+    cv_ok = tol >= CVODE_MIN_REL_TOL * scale
+    ws = [draw(acc_way(hosts, cv_ok)), draw(acc_way(hosts, cv_ok))]
     k = draw(st.integers(0, 3))
     if k == 1:
-        ws.append(draw(acc_way(hosts)))
+        ws.append(draw(acc_way(hosts, cv_ok)))
     elif k >= 2:
-        ws.append(draw(kf_way(hosts, tol)))
+        ws.append(draw(kf_way(hosts, tol, cv_ok)))
     return ws
 
 
@@ -192,6 +200,18 @@ def formula_els(f):
         for e, k in SALTS[n].items():
             out[e] = out.get(e, 0.0) + c * k
     return out
+
+
+def case_scale(case):
+    """largest reactant amount of the problem (floor 1e-3 mol)"""
+    if case["kind"] != "cf":
+        return max(case["m0"], 1e-3)
+    a = [case["m0"], 1e-3]
+    if case["family"] == "chain":
+        a.append(case["p"]["b0"])
+    if case["family"] == "approach_m":
+        a.append(abs(case["p"]["minf"]))
+    return max(a)
 
 
 @st.composite
@@ -248,7 +268,7 @@ def cf_case(draw):
     hosts = ["batch", "batch", "batch", "advection", "transport_flux", "transport_const"]
     if fam == "approach_c":
         hosts = ["batch"]                # the closed form needs a closed cell
-    case["ways"] = draw(ways(hosts, case["tol"]))
+    case["ways"] = draw(ways(hosts, case["tol"], case_scale(case)))
     return case
 
 
@@ -284,7 +304,7 @@ def lib_case(draw):
         c["solution"] = " pH 7\n Na 1\n Cl 1 charge"
         c["units"] = "mmol/kgw"; c["formula"] = None; c["els"] = {"Si": 1}
     c["temp"] = draw(st.sampled_from([25.0, 25.0, 12.0, 40.0]))
-    c["ways"] = draw(ways(["batch"], c["tol"]))
+    c["ways"] = draw(ways(["batch"], c["tol"], case_scale(c)))
     return c
 
 
@@ -504,9 +524,10 @@ def way_label(w):
     return lab
 
 
-def static_class(w):
+def static_class(w, tol, scale):
     """accuracy class of a way as far as it follows from its construction:
-    'rk' | 'cvodeA' (default order, no restart; chained integrations still to be counted) | 'K2_order' | 'K1_restart'"""
+    'rk' | 'cvodeA' (default order, no restart, tolerance not below CVODE_MIN_REL_TOL of the amounts; chained integrations
+    still to be counted) | 'K2_order' | 'K1_restart' | 'K2_tight_tol'"""
     g = w["integ"]
     if g["type"] == "rk":
         return "rk"
@@ -514,6 +535,8 @@ def static_class(w):
         return "K2_order"
     if g["steps"] < NO_RESTART_STEPS:
         return "K1_restart"
+    if tol < CVODE_MIN_REL_TOL * scale:
+        return "K2_tight_tol"
     return "cvodeA"
 
 
@@ -552,13 +575,13 @@ def check_case(case, ctx, probe=None):
         els = sorted(case["els"])
     reads_solution = (not cf) or fam == "approach_c"
     force_all = bool(case.get("assert_all"))       # only in the registered known-finding replays
-    scale = max(m_init + [1e-3] + ([abs(case["p"]["minf"])] if cf and fam == "approach_m" else []))
+    scale = case_scale(case)
     base_bound = 100.0 * tol + 1e-11 * scale
     finals = []
     classes = ["family=%s" % fam, "tol=%g" % tol]
     nsat = None
     moved = 0.0
-    worst = 0.0
+    worst, worst_what = 0.0, ""
     for w in case["ways"]:
         if cf and fam == "approach_c" and nsat is None:
             # saturation amount = initial dissolved amount (exact echo of the input: conc * water) + dn
@@ -575,7 +598,7 @@ def check_case(case, ctx, probe=None):
         if len(reac) != len(cum):
             raise Violation("rows", "%s: %d reaction rows for %d steps" % (lab, len(reac), len(cum)))
         # ---- is this way inside a known-finding trigger class?  (by construction; chained integrations counted)
-        klass = static_class(w)
+        klass = static_class(w, tol, scale)
         nch = chained(w, reac, T)
         if klass == "cvodeA" and nch > ACC_MAX_CHAINED:
             klass = "K2_chained"
@@ -619,7 +642,8 @@ def check_case(case, ctx, probe=None):
                 ex = exact(case, t)
                 for j in range(names):
                     d = abs(ms[j] - ex[j])
-                    worst = max(worst, d / bound)
+                    if d / bound > worst:
+                        worst, worst_what = d / bound, "exact " + lab
                     if probe is not None:
                         probe.setdefault("exact", []).append((d / tol, (d - 4.0 * closure) / tol, lab, nch))
                     elif d > bound:
@@ -667,7 +691,8 @@ def check_case(case, ctx, probe=None):
             bnd = max(finals[a][2], finals[b_][2])
             for j in range(names):
                 d = abs(finals[a][1][j] - finals[b_][1][j])
-                worst = max(worst, d / bnd)
+                if d / bnd > worst:
+                    worst, worst_what = d / bnd, "path %s vs %s" % (finals[a][0], finals[b_][0])
                 if probe is not None:
                     probe.setdefault("path", []).append((d / tol, (d - (bnd - base_bound)) / tol, finals[a][0] + " vs " + finals[b_][0], 0))
                 elif d > bnd:
@@ -680,6 +705,8 @@ def check_case(case, ctx, probe=None):
         classes.append("exhaustion_inside_interval")
     classes.append("accuracy_ways=%d" % len(finals))
     classes.append("worst_diff/bound" + bucket(worst))
+    if worst > 0.4 and probe is None and hasattr(ctx, "extra") and len(ctx.extra.setdefault("near_bound", [])) < 25:
+        ctx.extra["near_bound"].append("%.2f %s tol=%g scale=%.3g %s" % (worst, fam, tol, scale, worst_what))
     if bmax > 2 * base_bound:
         classes.append("closure_dominates_bound")
     return {"nontrivial": nt, "classes": classes}
